@@ -669,6 +669,9 @@ def r7(ctx, facts):
                     good = True
                 if k == -1 and (cmp_truth(st, "Gt", s, ("const", -1)) == 1 or cmp_truth(st, "Le", s, ("const", -1)) == 0):
                     good = True
+                # two separate tests: not below -1 and not equal to -1
+                if k == -1 and cmp_truth(st, "Lt", s, ("const", -1)) == 0 and cmp_truth(st, "Eq", s, ("const", -1)) == 0:
+                    good = True
             for c in cmps:
                 a0, a1 = dj.expr_of_operand(c.args[0]), dj.expr_of_operand(c.args[1])
                 d = st.get(("disc", (c.dest[0], ())))
